@@ -125,3 +125,11 @@ Proof.
   intros bn ts Hin. cbn in Hin. destruct Hin as [H|[H|[]]]; inversion H; subst; intros Hx; destruct Hx.
 Qed.
 Print Assumptions C16_pairing_every_writer_refuted.
+
+(* a recorded transaction always has a block to be reported with: the `expect`s of get_transaction_with_header on the
+   number -> hash entry cannot fail after any history of the writers (op px reports a panic there as a disagreement) *)
+Theorem C16_recorded_transaction_has_a_block :
+  forall ops t bn,
+    a_get N.eqb t (p_txs (prun ops)) = Some bn -> exists bh, a_get N.eqb bn (p_num (prun ops)) = Some bh.
+Proof. exact pairing_total. Qed.
+Print Assumptions C16_recorded_transaction_has_a_block.
